@@ -61,7 +61,7 @@ def _run(thunk):
 def impl(case):
     cls = CLASSES[case.get("cls", "nm")]
     root, index = build(case["tree"], cls)
-    if cls is CLASSES["nm"]:
+    if issubclass(cls, CLASSES["nm"]):
         for lab, name, val in case["attrs"]:
             setattr(index[lab], name, val)
     mod = cachedsearch if case.get("module") == "cachedsearch" else search
@@ -73,7 +73,7 @@ def impl(case):
         # more node): results must always describe the tree as it is *now*
         extra = cls(-1, parent=index[warm["under"]])
         saved = []
-        if cls is CLASSES["nm"]:
+        if issubclass(cls, CLASSES["nm"]):
             extra.x = warm.get("xval", 0)
             for lab, name, val in warm.get("attrs", []):
                 saved.append((lab, name, getattr(index[lab], name, _MISSING)))
